@@ -288,6 +288,17 @@ func continuation(p qbftsim.Prog, alt int, forward bool, lockstep bool) contResu
 	}
 	// classify the wedge for the failure signature
 	if !cr.ok {
+		// two distinct prepared values may also arise during the continuation itself (in-flight prepares reach only
+		// some operators): classify on the final state as well
+		roots := map[string]bool{}
+		for _, id := range s.Correct {
+			if inst := s.Inst(id); inst != nil && inst.State.LastPreparedValue != nil && !inst.State.Decided {
+				roots[string(inst.State.LastPreparedValue)] = true
+			}
+		}
+		if len(roots) >= 2 {
+			cr.twoPrepared = true
+		}
 		silentDecided := 0
 		for _, id := range s.Correct {
 			if inst := s.Inst(id); inst != nil && inst.State.Decided {
@@ -309,6 +320,9 @@ func runCont(c ContProg) *prog.Result {
 	// Not judged: with one operator a full round ahead and no f+1 set to pull the others forward, lock-step keeps
 	// the gap until the slow rounds on the unchanged tree too; the statement's continuation is existential and the
 	// simulator does not model timer phases.
+	if len(c.Alts) == 0 || c.Alts[0]%4 != 0 {
+		return r // computed for a quarter of the cases only (it doubles the cost)
+	}
 	if r2 := runContPolicy(c, true); r2.Fail != nil {
 		r.Classes = append(r.Classes, "info:lock-step-timers-do-not-decide")
 	} else {
